@@ -70,9 +70,9 @@ def scenario(kind, name, layout, sort, frm, parent_removed, noise):
 parse_listing = K.restore_listing
 
 
-def _case(kind, name, layout, sort, frm, parent_removed, noise):
+def _case(kind, name, layout, sort, frm, parent_removed, noise, overwrite=False):
     with rt.untraced():
-        rt.begin((K.KINDS[kind], NAMES[name][:12], LAYOUTS[layout], SORTS[sort], FROMS[frm], parent_removed, NOISE[noise]))
+        rt.begin((K.KINDS[kind], NAMES[name][:12], LAYOUTS[layout], SORTS[sort], FROMS[frm], parent_removed, NOISE[noise], overwrite))
         world, pre, d, path, put_extra, rest_extra, e = scenario(kind, name, layout, sort, frm, parent_removed, noise)
         label = '%s:%s:%s' % (K.KINDS[kind], LAYOUTS[layout], repr(NAMES[name][:12]))
         m = W.build_model(world)
@@ -107,7 +107,7 @@ def _case(kind, name, layout, sort, frm, parent_removed, noise):
             fac.shutil.rmtree(d)
         mid = m.snap('/')
         f = FROMS[frm]
-        args = list(rest_extra)
+        args = list(rest_extra) + (['--overwrite'] if overwrite else [])  # (nothing is in the way: the option must not matter)
         if SORTS[sort]:
             args += ['--sort', SORTS[sort]]
         if f == 'origdir':
@@ -185,6 +185,15 @@ def w_main(kind: int, name: int, layout: int, sort: int) -> str:
     return _case(rt.sel(kind, 6), rt.sel(name, 16), rt.sel(layout, NL), rt.sel(sort, 4), 0, False, 0)
 
 
+def w_ow(kind: int, layout: int, frm: int, parent_removed: bool, sort: int) -> str:
+    """
+    pre: PARTITION is None or kind == PARTITION
+    pre: 0 <= kind < 6 and 0 <= layout < NL and 0 <= frm < 5 and 0 <= sort < 4
+    post: _ == ''
+    """
+    return _case(rt.sel(kind, 6), 0, rt.sel(layout, NL), rt.sel(sort, 4), rt.sel(frm, 5), rt.selb(parent_removed), 0, True)
+
+
 def w_from(kind: int, layout: int, frm: int, parent_removed: bool, noise: int, name: int, sort: int) -> str:
     """
     pre: PARTITION is None or kind == PARTITION
@@ -252,6 +261,8 @@ def obligations(tier):
            regime='selector', encodes=enc, stubs=K.STUBS,
            bounds='6 kinds x 6 layouts x 5 restore-from x parent removed x 4 noise histories x 3 names x 3 sorts'),
     ]
+    obs.append(CH('W_restore_with_overwrite_option', MOD, 'w_ow', timeout=900, partitions=list(range(6)), engine='W', regime='selector', encodes=enc, stubs=K.STUBS,
+                  bounds='trash-restore --overwrite with nothing in the way: 6 kinds x 6 layouts x 5 restore-from x parent directory removed or not x 4 sort modes'))
     if tier == 'thorough':
         obs.append(CH('W_full_product', MOD, 'w_full', timeout=3000, twin=False, engine='W', regime='selector',
                       partitions=[(k, l) for k in range(6) for l in range(NL)], encodes=enc, stubs=K.STUBS,
